@@ -48,6 +48,10 @@ def run(ctx):
         r4(ctx, facts, cfg)
         r5(ctx, facts, cfg)
         r5_siblings(ctx, facts, cfg)
+        # the cross-thread clause rests on 'after a pass every thread with an eligible statement has one buffered': the read loop of a
+        # queue ends only for the three reasons of C05.R9
+        from rules import c05 as _c05
+        _c05.r9_read_pass_exits(ctx, facts, cfg, rule="C06.R6")
 
 
 def r1(ctx, facts, cfg, rule):
